@@ -1340,7 +1340,9 @@ func (c *Core) handleRequest(ctx context.Context, req *logical.Request) (retResp
 				nsActiveCtx := namespace.ContextWithNamespace(c.activeContext.Load(), ns)
 				leaseID, err := c.expiration.CreateOrFetchRevocationLeaseByToken(nsActiveCtx, te)
 				if err == nil {
-					err = c.expiration.LazyRevoke(ctx, leaseID)
+					// Not the request's context: the client may be gone
+					// by now, and the spent token must be revoked anyway.
+					err = c.expiration.LazyRevoke(nsActiveCtx, leaseID)
 				}
 				if err != nil {
 					c.logger.Error("failed to revoke token", "error", err)
